@@ -147,6 +147,8 @@ pub fn is_start_expression_exclude_unary(tp: &Lex) -> bool {
             | Token::ENum(..)
             | Token::Str(..)
             | Token::Not
+            | Token::Sqrt
+            | Token::BOneCmpl
             | Token::Id(_)
     )
 }
